@@ -78,6 +78,8 @@ def sib_queue_len(ctx, prog):
             continue
         du = DefUse(F)
         cs = q.calls_in(F, callee)
+        if not cs and callee.endswith("Vec::resize"):
+            cs = q.calls_in(F, "alloc::vec::Vec::resize_with")      # same length argument
         if not cs:
             ctx.missing(R, "%s in %s" % (callee, F.short))
         for t in cs:
@@ -152,6 +154,20 @@ def dom_limit(ctx, prog):
                 "checked height; shrinking below max_height_seen diverges; set_max_height_allowed diverges "
                 "while Stabilising")
     n = 0
+    # heights are only ever stored through AdjustHeightsHeap::set_height (limit test + max_height_seen, which the
+    # shrink test of set_max_height_allowed relies on)
+    NS = prog.fn("<incremental::node::Node as incremental::node::ErasedNode>::set_height")
+    if NS is None:
+        ctx.missing(R, "<Node as ErasedNode>::set_height")
+    else:
+        for t in prog.callers(NS):
+            ctx.site(R, t.fn, "bb%d node.set_height" % t.bb)
+            if q.strip_generics(t.fn.path) == q.strip_generics(q.AHH + "set_height"):
+                ctx.ok(R, "height-writer:" + t.fn.short)
+            else:
+                ctx.fail(R, "height-writer:" + t.fn.short, "%s stores a node height directly, bypassing "
+                         "AdjustHeightsHeap::set_height: max_height_seen is not updated (a later shrink below the "
+                         "height in use is accepted) and/or the limit is not tested" % t.fn.short, fn=t.fn, span=t.span)
     F = ctx.need_fn(R, q.AHH + "set_height")
     if F is not None:
         du = DefUse(F)
